@@ -1,0 +1,372 @@
+//! Verification hooks (only compiled with the `verif-hooks` cargo feature).
+//!
+//! Nothing in here changes behaviour unless a harness explicitly installs an override:
+//! every hook is an early `if let Some(..)` on a process-global that defaults to "unset".
+//!
+//! * H1: clock override for entry timestamps / validation and for the useful-peer nanos.
+//! * H2: numbered store access points with an optional "transaction looks old" answer.
+//! * H3: reconciliation parameter override, an adapter that lets an external ordered backend be
+//!   driven by the crate's own reconciliation routine, and pass-throughs to the storage
+//!   primitives of a real [`StoreInstance`].
+//! * H4/H5 live in `net.rs` / `engine.rs` (re-exports of private items).
+
+use std::sync::{
+    atomic::{AtomicU64, AtomicUsize, Ordering},
+    Mutex,
+};
+
+use crate::{
+    ranger::{self, Fingerprint, Range, Store as _},
+    store::{fs::StoreInstance, PublicKeyStore},
+    sync::{ProtocolMessage, Record, RecordIdentifier, Replica, ReplicaInfo, SignedEntry},
+    ContentStatus, NamespaceId, PeerIdBytes, SyncOutcome,
+};
+
+// ---------------------------------------------------------------------------------------------
+// H1: clock
+// ---------------------------------------------------------------------------------------------
+
+static CLOCK_MICROS: AtomicU64 = AtomicU64::new(0);
+static CLOCK_NANOS: AtomicU64 = AtomicU64::new(0);
+
+/// Pin the wall clock used for entry timestamps and the future bound (microseconds since the
+/// epoch). `None` restores the real clock.
+pub fn set_clock_micros(t: Option<u64>) {
+    CLOCK_MICROS.store(t.unwrap_or(0), Ordering::SeqCst);
+}
+
+pub(crate) fn clock_micros() -> Option<u64> {
+    match CLOCK_MICROS.load(Ordering::SeqCst) {
+        0 => None,
+        t => Some(t),
+    }
+}
+
+/// Pin the nanosecond clock used by `register_useful_peer`. Every read returns the current value
+/// and advances it by one, so registrations are strictly ordered. `None` restores the real clock.
+pub fn set_clock_nanos(t: Option<u64>) {
+    CLOCK_NANOS.store(t.unwrap_or(0), Ordering::SeqCst);
+}
+
+pub(crate) fn clock_nanos() -> Option<u64> {
+    if CLOCK_NANOS.load(Ordering::SeqCst) == 0 {
+        return None;
+    }
+    Some(CLOCK_NANOS.fetch_add(1, Ordering::SeqCst))
+}
+
+// ---------------------------------------------------------------------------------------------
+// H2: store access points
+// ---------------------------------------------------------------------------------------------
+
+/// Which accessor of the store was entered.
+#[derive(Debug, Clone, Copy, PartialEq, Eq)]
+pub enum AccessKind {
+    /// `Store::tables()`
+    Tables,
+    /// `Store::modify()`
+    Modify,
+}
+
+/// Information handed to the access callback.
+#[derive(Debug, Clone, Copy)]
+pub struct AccessInfo {
+    /// Accessor entered.
+    pub kind: AccessKind,
+    /// Whether a write transaction is currently open (uncommitted data may exist).
+    pub write_open: bool,
+}
+
+/// Callback invoked at the top of every `Store::tables()` / `Store::modify()`.
+///
+/// Returning `true` makes the currently open write transaction look older than the commit delay,
+/// so that the *existing* age check commits it (emulates a slow or suspended process).
+pub type AccessCallback = Box<dyn FnMut(AccessInfo) -> bool + Send>;
+
+static ACCESS_CB: Mutex<Option<AccessCallback>> = Mutex::new(None);
+
+/// Install (or remove) the store access callback.
+pub fn set_store_access_callback(cb: Option<AccessCallback>) {
+    *ACCESS_CB.lock().unwrap_or_else(|e| e.into_inner()) = cb;
+}
+
+pub(crate) fn on_store_access(kind: AccessKind, write_open: bool) -> bool {
+    let mut guard = ACCESS_CB.lock().unwrap_or_else(|e| e.into_inner());
+    match guard.as_mut() {
+        None => false,
+        Some(cb) => cb(AccessInfo { kind, write_open }),
+    }
+}
+
+// ---------------------------------------------------------------------------------------------
+// H3: reconciliation parameters, backend adapter, storage primitives
+// ---------------------------------------------------------------------------------------------
+
+static SYNC_MAX_SET_SIZE: AtomicUsize = AtomicUsize::new(0);
+static SYNC_SPLIT_FACTOR: AtomicUsize = AtomicUsize::new(0);
+
+/// Override the parameters returned by `SyncConfig::default()` (which is what
+/// `Replica::sync_process_message` uses). `None` restores the built-in defaults.
+pub fn set_sync_config(cfg: Option<(usize, usize)>) {
+    let (m, s) = cfg.unwrap_or((0, 0));
+    SYNC_MAX_SET_SIZE.store(m, Ordering::SeqCst);
+    SYNC_SPLIT_FACTOR.store(s, Ordering::SeqCst);
+}
+
+pub(crate) fn sync_config() -> Option<(usize, usize)> {
+    let m = SYNC_MAX_SET_SIZE.load(Ordering::SeqCst);
+    let s = SYNC_SPLIT_FACTOR.load(Ordering::SeqCst);
+    if m == 0 || s == 0 {
+        None
+    } else {
+        Some((m, s))
+    }
+}
+
+/// An ordered entry store implemented outside the crate that the crate's own reconciliation
+/// routine can be run against.
+pub trait OrderedBackend {
+    /// First key in order (or the default identifier when empty).
+    fn get_first(&mut self) -> anyhow::Result<RecordIdentifier>;
+    /// Fingerprint of the range `(x, y)` with wrap-around semantics.
+    fn get_fingerprint(
+        &mut self,
+        x: &RecordIdentifier,
+        y: &RecordIdentifier,
+    ) -> anyhow::Result<[u8; 32]>;
+    /// Insert just this entry.
+    fn entry_put(&mut self, entry: SignedEntry) -> anyhow::Result<()>;
+    /// Entries in the range `(x, y)` with wrap-around semantics, in the backend's scan order.
+    fn get_range(
+        &mut self,
+        x: &RecordIdentifier,
+        y: &RecordIdentifier,
+    ) -> anyhow::Result<Vec<SignedEntry>>;
+    /// Entries whose key is a prefix of (or equal to) `key` (same namespace and author).
+    fn prefixes_of(&mut self, key: &RecordIdentifier) -> anyhow::Result<Vec<SignedEntry>>;
+    /// Remove entries prefixed by `prefix` for which the predicate holds; return the count.
+    fn remove_prefix_filtered(
+        &mut self,
+        prefix: &RecordIdentifier,
+        predicate: &dyn Fn(&Record) -> bool,
+    ) -> anyhow::Result<usize>;
+}
+
+/// Adapter implementing the crate-private reconciliation storage trait for an [`OrderedBackend`].
+#[derive(Debug)]
+pub struct Adapter<B>(pub B);
+
+impl<B: OrderedBackend> ranger::Store<SignedEntry> for Adapter<B> {
+    type Error = anyhow::Error;
+    type RangeIterator<'a>
+        = std::vec::IntoIter<anyhow::Result<SignedEntry>>
+    where
+        Self: 'a;
+    type ParentIterator<'a>
+        = std::vec::IntoIter<anyhow::Result<SignedEntry>>
+    where
+        Self: 'a;
+
+    fn get_first(&mut self) -> anyhow::Result<RecordIdentifier> {
+        self.0.get_first()
+    }
+
+    fn get_fingerprint(&mut self, range: &Range<RecordIdentifier>) -> anyhow::Result<Fingerprint> {
+        Ok(Fingerprint(self.0.get_fingerprint(range.x(), range.y())?))
+    }
+
+    fn entry_put(&mut self, entry: SignedEntry) -> anyhow::Result<()> {
+        self.0.entry_put(entry)
+    }
+
+    fn get_range(
+        &mut self,
+        range: Range<RecordIdentifier>,
+    ) -> anyhow::Result<Self::RangeIterator<'_>> {
+        let v = self.0.get_range(range.x(), range.y())?;
+        Ok(v.into_iter().map(Ok).collect::<Vec<_>>().into_iter())
+    }
+
+    fn prefixes_of(&mut self, key: &RecordIdentifier) -> anyhow::Result<Self::ParentIterator<'_>> {
+        let v = self.0.prefixes_of(key)?;
+        Ok(v.into_iter().map(Ok).collect::<Vec<_>>().into_iter())
+    }
+
+    fn remove_prefix_filtered(
+        &mut self,
+        prefix: &RecordIdentifier,
+        predicate: impl Fn(&Record) -> bool,
+    ) -> anyhow::Result<usize> {
+        self.0.remove_prefix_filtered(prefix, &predicate)
+    }
+}
+
+impl<B> PublicKeyStore for Adapter<B> {
+    fn public_key(&self, id: &[u8; 32]) -> Result<iroh::PublicKey, iroh::KeyParsingError> {
+        iroh::PublicKey::from_bytes(id)
+    }
+}
+
+/// The crate's own `initial_message` on an external backend.
+pub fn backend_initial_message<B: OrderedBackend>(
+    backend: &mut Adapter<B>,
+) -> anyhow::Result<ProtocolMessage> {
+    backend.initial_message()
+}
+
+/// The crate's own `put` (admission test, pruning, write) on an external backend.
+///
+/// Returns `Some(removed)` if inserted, `None` if not.
+pub fn backend_put<B: OrderedBackend>(
+    backend: &mut Adapter<B>,
+    entry: SignedEntry,
+) -> anyhow::Result<Option<usize>> {
+    Ok(match backend.put(entry)? {
+        ranger::InsertOutcome::Inserted { removed } => Some(removed),
+        ranger::InsertOutcome::NotInserted => None,
+    })
+}
+
+/// The crate's own `process_message` on an external backend, with the same bookkeeping and the
+/// same validation callback that `Replica::sync_process_message` uses for a replica without
+/// content-status callback and without subscribers.
+pub async fn backend_process_message<B: OrderedBackend>(
+    backend: &mut Adapter<B>,
+    config: Option<(usize, usize)>,
+    namespace: NamespaceId,
+    message: ProtocolMessage,
+    from_peer: PeerIdBytes,
+    state: &mut SyncOutcome,
+) -> anyhow::Result<Option<ProtocolMessage>> {
+    let now = crate::sync::verif_now();
+    state.num_recv += message.value_count();
+    for (entry, _content_status) in message.values() {
+        state
+            .heads_received
+            .insert(entry.author(), entry.timestamp());
+    }
+    let config = match config {
+        Some((max_set_size, split_factor)) => ranger::SyncConfig::verif_new(max_set_size, split_factor),
+        None => Default::default(),
+    };
+    let reply = backend
+        .process_message(
+            &config,
+            message,
+            |store, entry, content_status| {
+                crate::sync::verif_validate_remote(
+                    now,
+                    store,
+                    namespace,
+                    entry,
+                    from_peer,
+                    content_status,
+                )
+            },
+            async |_store, _entry, _content_status| {},
+            async move |_entry| ContentStatus::Missing,
+        )
+        .await?;
+    if let Some(ref reply) = reply {
+        state.num_sent += reply.value_count();
+    }
+    Ok(reply)
+}
+
+/// Storage primitives of a real replica's [`StoreInstance`], exposed for differential checks.
+pub struct Primitives<'r, 'a, I>(pub &'r mut Replica<'a, I>);
+
+impl<'r, 'a, I> std::fmt::Debug for Primitives<'r, 'a, I> {
+    fn fmt(&self, f: &mut std::fmt::Formatter<'_>) -> std::fmt::Result {
+        write!(f, "Primitives")
+    }
+}
+
+impl<'r, 'a, I> Primitives<'r, 'a, I>
+where
+    I: std::ops::Deref<Target = ReplicaInfo> + std::ops::DerefMut,
+{
+    fn inst(&mut self) -> &mut StoreInstance<'a> {
+        &mut self.0.store
+    }
+
+    /// `get_first`
+    pub fn get_first(&mut self) -> anyhow::Result<RecordIdentifier> {
+        self.inst().get_first()
+    }
+
+    /// `get_range((x, y))`
+    pub fn get_range(
+        &mut self,
+        x: RecordIdentifier,
+        y: RecordIdentifier,
+    ) -> anyhow::Result<Vec<SignedEntry>> {
+        self.inst().get_range(Range::new(x, y))?.collect()
+    }
+
+    /// `get_range_len((x, y))`
+    pub fn get_range_len(
+        &mut self,
+        x: RecordIdentifier,
+        y: RecordIdentifier,
+    ) -> anyhow::Result<usize> {
+        self.inst().get_range_len(Range::new(x, y))
+    }
+
+    /// `get_fingerprint((x, y))`
+    pub fn get_fingerprint(
+        &mut self,
+        x: RecordIdentifier,
+        y: RecordIdentifier,
+    ) -> anyhow::Result<[u8; 32]> {
+        Ok(self.inst().get_fingerprint(&Range::new(x, y))?.0)
+    }
+
+    /// `prefixes_of(key)`
+    pub fn prefixes_of(&mut self, key: &RecordIdentifier) -> anyhow::Result<Vec<SignedEntry>> {
+        self.inst().prefixes_of(key)?.collect()
+    }
+
+    /// `remove_prefix_filtered(prefix, predicate)`
+    pub fn remove_prefix_filtered(
+        &mut self,
+        prefix: &RecordIdentifier,
+        predicate: impl Fn(&Record) -> bool,
+    ) -> anyhow::Result<usize> {
+        self.inst().remove_prefix_filtered(prefix, predicate)
+    }
+
+    /// Raw `entry_put` (no validation, no admission test, no pruning).
+    pub fn entry_put(&mut self, entry: SignedEntry) -> anyhow::Result<()> {
+        self.inst().entry_put(entry)
+    }
+
+    /// `put` (admission test, pruning, write) without validation or events.
+    pub fn put(&mut self, entry: SignedEntry) -> anyhow::Result<Option<usize>> {
+        Ok(match self.inst().put(entry)? {
+            ranger::InsertOutcome::Inserted { removed } => Some(removed),
+            ranger::InsertOutcome::NotInserted => None,
+        })
+    }
+}
+
+/// Raw `entry_put` into a store under an arbitrary namespace id (used to populate documents whose
+/// ids are byte-order neighbours, for which no key pair can be ground).
+pub fn raw_entry_put(
+    store: &mut crate::store::Store,
+    namespace: NamespaceId,
+    entry: SignedEntry,
+) -> anyhow::Result<()> {
+    StoreInstance::new(namespace, store).entry_put(entry)
+}
+
+/// The fingerprint of a single entry, as used by reconciliation.
+pub fn entry_fingerprint(entry: &SignedEntry) -> [u8; 32] {
+    use crate::ranger::RangeEntry;
+    entry.as_fingerprint().0
+}
+
+/// The fingerprint of the empty set.
+pub fn empty_fingerprint() -> [u8; 32] {
+    Fingerprint::empty().0
+}
